@@ -1,5 +1,6 @@
 import Ecal.Lemmas.PriorityBook
 import Ecal.Lemmas.PriorityHeapPop
+import Ecal.Lemmas.PriorityHeapPush
 /-!
 # C10 — priorities order execution; the first failing rule ends a trigger sequence
 
@@ -338,6 +339,138 @@ theorem heap_pop_is_min (l l' : List Item) (x : Item) (hok : Heap.Ok Item.lt l l
 
 example : (Heap.pop Item.lt (Heap.push Item.lt (Heap.push Item.lt (Heap.push Item.lt [] ⟨3, 0, 10⟩) ⟨0, 1, 11⟩) ⟨0, 2, 12⟩)).map
     (fun r => (r.1.val, r.2.map (·.val))) = some (11, [12, 10]) := by decide
+
+/-! ### the real heap implements the abstract queue -/
+
+/-- **`heap.Push` keeps the heap order** of a `priorityQueueHeap` slice -/
+theorem heap_push_keeps_order (l : List Item) (x : Item) (h : Heap.Ok Item.lt l l.length 0) :
+    Heap.Ok Item.lt (Heap.push Item.lt l x) (Heap.push Item.lt l x).length 0 :=
+  push_ok itemLt_strict l x h
+
+/-- refinement relation: the slice holds the abstract queue's items (as a multiset), the counters
+    agree, and the slice is in heap order -/
+structure Refines (h : HPQ) (q : PQ) : Prop where
+  items   : h.heap.Perm q.items
+  counter : h.counter = q.counter
+  ordered : Heap.Ok Item.lt h.heap h.heap.length 0
+
+theorem refines_push {h : HPQ} {q : PQ} (r : Refines h q) (val : Nat) (prio : Int) :
+    Refines (h.push val prio) (q.push val prio) := by
+  unfold HPQ.push PQ.push
+  refine ⟨?_, by simp [r.counter], heap_push_keeps_order _ _ r.ordered⟩
+  dsimp only
+  rw [r.counter]
+  refine (push_perm _ _ _).trans ((r.items.cons _).trans ?_)
+  exact List.perm_append_comm (l₁ := [_])
+
+theorem minItem_ne_none : ∀ {l : List Item}, l ≠ [] → minItem l ≠ none
+  | [], h => absurd rfl h
+  | x :: xs, _ => by
+    unfold minItem
+    split
+    · simp
+    · split <;> simp
+
+theorem eq_of_seq_eq {l : List Item} (hpw : l.Pairwise (fun a b => a.seq < b.seq)) {a b : Item}
+    (ha : a ∈ l) (hb : b ∈ l) (h : a.seq = b.seq) : a = b := by
+  rcases List.mem_iff_getElem.mp ha with ⟨i, hi, rfl⟩
+  rcases List.mem_iff_getElem.mp hb with ⟨j, hj, rfl⟩
+  rcases Nat.lt_trichotomy i j with hlt | heq | hgt
+  · have := List.pairwise_iff_getElem.mp hpw i j hi hj hlt; omega
+  · subst heq; rfl
+  · have := List.pairwise_iff_getElem.mp hpw j i hj hi hgt; omega
+
+/-- one `Pop` of the real heap is one `pop` of the abstract queue, returning the same item -/
+theorem refines_pop {h h' : HPQ} {q : PQ} {x : Item} (hr : Reachable q) (r : Refines h q)
+    (hp : h.pop = some (x, h')) : ∃ q', q.pop = some (x, q') ∧ Refines h' q' := by
+  unfold HPQ.pop at hp
+  split at hp
+  · cases hp
+  · rename_i y l' hpop
+    cases hp
+    obtain ⟨_, hmin, hperm, hok⟩ := pop_spec itemLt_strict _ _ _ r.ordered hpop
+    have hxh : x ∈ h.heap := hperm.mem_iff.mp (List.mem_cons_self)
+    have hxq : x ∈ q.items := r.items.mem_iff.mp hxh
+    have hne : q.items ≠ [] := List.ne_nil_of_mem hxq
+    cases hm : minItem q.items with
+    | none => exact absurd hm (minItem_ne_none hne)
+    | some m =>
+      obtain ⟨hmq, hmmin⟩ := minItem_spec _ _ hm
+      -- both are least: same priority and insertion number, hence the same item
+      have h1 : Item.lt m x = false := hmin m (r.items.mem_iff.mpr hmq)
+      have h2 : Item.lt x m = false := hmmin x hxq
+      have hseq : x.seq = m.seq := by
+        unfold Item.lt at h1 h2
+        split at h1 <;> split at h2 <;> simp_all <;> omega
+      have hxm : x = m := eq_of_seq_eq (reachable_wf hr).1 hxq hmq hseq
+      subst hxm
+      refine ⟨{ q with items := q.items.erase x }, by simp [PQ.pop, hm], ?_, r.counter, hok⟩
+      have := (hperm.trans r.items).erase x
+      simpa using this
+
+/-- priority queues (real representation) reachable from `NewPriorityQueue()` by `Push` and `Pop` -/
+inductive ReachableH : HPQ → Prop where
+  | empty : ReachableH {}
+  | push {h} (val : Nat) (prio : Int) : ReachableH h → ReachableH (h.push val prio)
+  | pop {h h' x} : ReachableH h → h.pop = some (x, h') → ReachableH h'
+
+/-- **Every reachable `PriorityQueue` is heap-ordered** and refines a reachable abstract queue -/
+theorem pq_reachable_heap_ordered {h : HPQ} (hr : ReachableH h) :
+    Heap.Ok Item.lt h.heap h.heap.length 0 ∧ ∃ q, Reachable q ∧ Refines h q := by
+  induction hr with
+  | empty =>
+    have : Refines {} {} := ⟨List.Perm.refl _, rfl, by intro p c _ hc; simp at hc⟩
+    exact ⟨this.ordered, {}, .empty, this⟩
+  | push val prio _ ih =>
+    obtain ⟨_, q, hq, r⟩ := ih
+    have r' := refines_push r val prio
+    exact ⟨r'.ordered, _, .push val prio hq, r'⟩
+  | pop _ hp ih =>
+    obtain ⟨_, q, hq, r⟩ := ih
+    obtain ⟨q', hp', r'⟩ := refines_pop hq r hp
+    exact ⟨r'.ordered, q', .pop hq hp', r'⟩
+
+/-- **The real heap algorithm implements `pop_is_min` in every reachable state**: whatever
+    sequence of `Push`/`Pop` calls built the queue, container/heap's `Pop` returns the item with
+    the least (priority, insertion number); nothing queued precedes it and everything that stays
+    queued comes strictly after it. An empty result means the queue is empty. -/
+theorem real_pop_is_min {h : HPQ} (hr : ReachableH h) :
+    (h.pop = none → h.heap = []) ∧
+    ∀ x h', h.pop = some (x, h') →
+      x ∈ h.heap ∧
+      (∀ y ∈ h.heap, ¬ y.prio < x.prio ∧ ¬ (y.prio = x.prio ∧ y.seq < x.seq)) ∧
+      (∀ y ∈ h'.heap, x.prio < y.prio ∨ (x.prio = y.prio ∧ x.seq < y.seq)) ∧
+      (x :: h'.heap).Perm h.heap := by
+  obtain ⟨_, q, hq, r⟩ := pq_reachable_heap_ordered hr
+  constructor
+  · intro hn
+    unfold HPQ.pop Heap.pop at hn
+    cases hh : h.heap with
+    | nil => rfl
+    | cons a as =>
+      rw [hh] at hn
+      simp only at hn
+      split at hn
+      · rename_i hnone
+        split at hnone
+        · cases hnone
+        · rename_i hidx
+          have hlen : ((Heap.down Item.lt ((a :: as).length - 1) (Heap.swp (a :: as) 0 ((a :: as).length - 1)) 0 0
+              ((a :: as).length - 1)).1).length = (a :: as).length :=
+            ((down_perm _ _ _ _ _ _).trans (swp_perm _ _ _)).length_eq
+          have := List.getElem?_eq_none_iff.mp hidx
+          simp at this hlen
+          omega
+      · cases hn
+  · intro x h' hp
+    obtain ⟨q', hp', r'⟩ := refines_pop hq r hp
+    obtain ⟨hmem, hmin, he, _⟩ := pop_is_min _ _ _ hp'
+    have hno := no_overtaking hq hp'
+    refine ⟨r.items.mem_iff.mpr hmem, fun y hy => hmin y (r.items.mem_iff.mp hy),
+      fun y hy => hno y (r'.items.mem_iff.mp hy), ?_⟩
+    have : (x :: q'.items).Perm q.items := by
+      rw [he]; exact (List.perm_cons_erase hmem).symm
+    exact ((r'.items.cons x).trans this).trans r.items.symm
 
 /-! ## the root monitor's highest-priority report -/
 
